@@ -439,3 +439,76 @@ func ruleInfixPriority(c *Ctx, r *Report) {
 		r.undecided(rule, "anchor:accept", c.Pos(infix.Pos()), desc, "no successful return found in Parser.infix")
 	}
 }
+
+// ---------------------------------------------------------------------------
+// C06: R-ELLIPSIS-GUARDED — added after seed C06f.  The writer replaces a subterm by `...` in three
+// situations only: the depth limit is exhausted (max_depth), the subterm is being written already (a cycle), or
+// the rest of a list is still a list cell that the iterator refused (a cycle through the spine).  Anywhere else
+// `...` silently drops a part of the term: [a|f(x)] written as [a|...] reads back as another term.  Every
+// WriteTerm call on the ellipsis atom lies under a branch fact computed from WriteOptions.maxDepth, from a
+// lookup in the visited set, or from a comparison of a Functor() with the list constructor.
+func ruleEllipsisGuarded(c *Ctx, r *Report) {
+	const rule = "R-ELLIPSIS-GUARDED"
+	desc := "`...` stands in for a subterm only at the depth limit, on a cycle, or for a list tail that is still a list"
+	ell := c.global("atomElipsis")
+	dot := c.global("atomDot")
+	if ell == nil || dot == nil {
+		r.undecided(rule, "anchor:atomElipsis/atomDot", "-", "locate the atoms", "not found")
+		return
+	}
+	n := 0
+	for _, fn := range c.LibFuncs() {
+		if funcPkg(fn) != c.Engine {
+			continue
+		}
+		k := 0
+		eachInstr(fn, func(in ssa.Instruction) {
+			call, ok := in.(*ssa.Call)
+			if !ok || len(call.Call.Args) == 0 {
+				return
+			}
+			callee := call.Call.StaticCallee()
+			if callee == nil || callee.Name() != "WriteTerm" {
+				return
+			}
+			ld, ok := call.Call.Args[0].(*ssa.UnOp)
+			if !ok || ld.X != ssa.Value(ell) {
+				return
+			}
+			n++
+			k++
+			key := fmt.Sprintf("%s/ellipsis#%d", fname(fn), k)
+			why := ""
+			for f := range c.factsAt(in.Block()) {
+				dataSlice(f.cond, func(x ssa.Value) bool {
+					switch y := x.(type) {
+					case *ssa.UnOp:
+						if fa, ok := y.X.(*ssa.FieldAddr); ok && y.Op == token.MUL && fieldName(fa) == "maxDepth" {
+							why = "the depth limit"
+						}
+						if y.X == ssa.Value(dot) && y.Op == token.MUL {
+							why = "a functor compared with '.'"
+						}
+					case *ssa.Field:
+						if st, ok := y.X.Type().Underlying().(*types.Struct); ok && st.Field(y.Field).Name() == "maxDepth" {
+							why = "the depth limit"
+						}
+					case *ssa.Extract:
+						if lk, ok := y.Tuple.(*ssa.Lookup); ok && lk.CommaOk {
+							why = "a lookup in the set of terms being written"
+						}
+					}
+					return why == ""
+				})
+			}
+			if why != "" {
+				r.ok(rule, key, c.at(in), desc, "under a condition computed from "+why, true)
+			} else {
+				r.bad(rule, key, c.at(in), desc, "`...` is written here without the depth limit, a cycle test or a test that the rest is still a list: a part of the term is dropped from the text, which then reads back as another term")
+			}
+		})
+	}
+	if n == 0 {
+		r.undecided(rule, "scan/ellipsis", "-", desc, "no write of the ellipsis atom found")
+	}
+}
